@@ -434,14 +434,19 @@ Qed.
 
 (* ---------- one round of the model is one round of the spec ---------- *)
 
-Lemma round_refines P cs tb buds projects rem rho tied projects' sel rest :
+Lemma round_any P cs buds projects rem rho tied projects' :
   wf_voters P -> Ref P cs buds projects rem ->
-  round_scan P buds projects = (Fin rho, tied, projects') -> pick_order tb tied = sel :: rest ->
-  spec_round cs P tb buds rem (mp_id sel) rho /\
-  Ref P cs (pay P sel rho buds) (remove_proj (mp_id sel) projects')
-      (filter (fun q => negb (Nat.eqb q (mp_id sel))) rem).
+  round_scan P buds projects = (Fin rho, tied, projects') ->
+  NoDup (ids tied) /\
+  (forall x, In x tied -> In (mp_id x) rem /\ affordable cs P buds (mp_id x) /\ is_rho cs P buds (mp_id x) rho) /\
+  (forall q r, In q rem -> affordable cs P buds q -> is_rho cs P buds q r ->
+     rho <= r /\ (r == rho -> In q (ids tied))) /\
+  (forall sel, In sel tied ->
+     wf_mp P cs sel /\
+     Ref P cs (pay P sel rho buds) (remove_proj (mp_id sel) projects')
+         (filter (fun q => negb (Nat.eqb q (mp_id sel))) rem)).
 Proof.
-  intros Hv HRef Hrs Hpo. pose proof (round_eager P cs buds projects rem _ _ _ Hv HRef Hrs) as He.
+  intros Hv HRef Hrs. pose proof (round_eager P cs buds projects rem _ _ _ Hv HRef Hrs) as He.
   destruct HRef as [Hb [Hw [Hnd [Hlb [Hsub Hrem]]]]].
   set (l := isort aff_leb projects) in *.
   assert (Hwl : forall mp, In mp l -> wf_mp P cs mp).
@@ -463,29 +468,18 @@ Proof.
     apply (isort_In aff_leb projects mp) in Hmp. fold l in Hmp.
     destruct (cur_rho_affordable P cs buds mp Hv Hb (Hwl mp Hmp) Haff) as [a0 [Hc Hr]].
     exists mp, a0. split; [exact Hmp|]. split; [reflexivity|]. split; [exact Hc|exact Hr]. }
-  assert (Hsel : In sel tied) by (apply (pick_order_In_iff tb); rewrite Hpo; left; reflexivity).
   destruct (round_scan_inv P cs buds projects Hv Hb Hw) as [I1 I2]. rewrite Hrs in I1, I2. simpl in I1, I2.
-  assert (Hok : tied_ok P cs buds (Fin rho) sel) by (rewrite Forall_forall in I1; apply I1; exact Hsel).
-  pose proof Hok as [Hwsel _].
-  split.
-  - (* the round of the spec *)
-    destruct (Htied sel Hsel) as [T1 [T2 T3]].
-    split; [exact T1|]. split; [exact T2|]. split; [exact T3|]. split.
-    + intros q r Hq Haff Hr. destruct (Hpool q Hq Haff) as [mp [a0 [Hmp [Eq [Hc Hr0]]]]].
-      pose proof (is_rho_unique cs P buds q a0 r Hr0 Hr) as E.
-      specialize (Hmin mp a0 Hmp Hc). apply Qx_le_Fin in Hmin. lra.
-    + exists (name_sort (ids tied)). split; [|split].
-      * intro q. unfold name_sort. rewrite (isort_In Nat.leb (ids tied) q). split.
-        -- intro Hq. unfold ids in Hq. apply in_map_iff in Hq. destruct Hq as [y [<- Hy]]. apply Htied. exact Hy.
-        -- intros [Hq [Haff Hr]]. destruct (Hpool q Hq Haff) as [mp [a0 [Hmp [Eq [Hc Hr0]]]]].
-           pose proof (is_rho_unique cs P buds q a0 rho Hr0 Hr) as E.
-           unfold ids. apply in_map_iff. exists (tmk P buds mp a0). split; [exact Eq|].
-           apply (Hcompl mp a0 Hmp Hc). exact E.
-      * apply name_sort_sorted.
-        pose proof (eager_NoDup P buds l PInf []) as Hn. rewrite He in Hn. simpl in Hn. apply Hn.
-        eapply Permutation_NoDup; [|exact Hnd]. unfold ids. apply Permutation_map. apply isort_perm.
-      * rewrite <- pick_ids, Hpo. reflexivity.
-  - (* the invariant after the purchase *)
+  split; [|split; [exact Htied|split]].
+  - pose proof (eager_NoDup P buds l PInf []) as Hn. rewrite He in Hn. simpl in Hn. apply Hn.
+    eapply Permutation_NoDup; [|exact Hnd]. unfold ids. apply Permutation_map. apply isort_perm.
+  - intros q r Hq Haff Hr. destruct (Hpool q Hq Haff) as [mp [a0 [Hmp [Eq [Hc Hr0]]]]].
+    pose proof (is_rho_unique cs P buds q a0 r Hr0 Hr) as E. split.
+    + specialize (Hmin mp a0 Hmp Hc). apply Qx_le_Fin in Hmin. lra.
+    + intro Er. unfold ids. apply in_map_iff. exists (tmk P buds mp a0). split; [exact Eq|].
+      apply (Hcompl mp a0 Hmp Hc). lra.
+  - intros sel Hsel.
+    assert (Hok : tied_ok P cs buds (Fin rho) sel) by (rewrite Forall_forall in I1; apply I1; exact Hsel).
+    pose proof Hok as [Hwsel _]. split; [exact Hwsel|].
     pose proof (tied_round_ok P cs buds rho sel Hb Hok) as Hr.
     assert (Hdec : forall i, (i < length P)%nat -> vbud (pay P sel rho buds) i <= vbud buds i).
     { intros i Hi. apply (round_no_overpay P cs _ Hr i Hi). }
@@ -510,6 +504,27 @@ Proof.
       * left. unfold ids in *. apply in_map_iff in Hk. destruct Hk as [y [<- Hy]].
         apply in_map_iff. exists y. split; [reflexivity|]. apply remove_proj_In. split; assumption.
       * right. apply Hstay. intro Ha. apply affordable_iff in Ha. apply Ha. exact Hk.
+Qed.
+
+Lemma round_refines P cs tb buds projects rem rho tied projects' sel rest :
+  wf_voters P -> Ref P cs buds projects rem ->
+  round_scan P buds projects = (Fin rho, tied, projects') -> pick_order tb tied = sel :: rest ->
+  spec_round cs P tb buds rem (mp_id sel) rho /\
+  Ref P cs (pay P sel rho buds) (remove_proj (mp_id sel) projects')
+      (filter (fun q => negb (Nat.eqb q (mp_id sel))) rem).
+Proof.
+  intros Hv HRef Hrs Hpo. destruct (round_any P cs buds projects rem rho tied projects' Hv HRef Hrs) as [Hnd [Htied [Hmin Hnext]]].
+  assert (Hsel : In sel tied) by (apply (pick_order_In_iff tb); rewrite Hpo; left; reflexivity).
+  split; [|apply (Hnext sel Hsel)].
+  destruct (Htied sel Hsel) as [T1 [T2 T3]].
+  split; [exact T1|]. split; [exact T2|]. split; [exact T3|]. split.
+  - intros q r Hq Haff Hr. apply (Hmin q r Hq Haff Hr).
+  - exists (name_sort (ids tied)). split; [|split].
+    + intro q. unfold name_sort. rewrite (isort_In Nat.leb (ids tied) q). split.
+      * intro Hq. unfold ids in Hq. apply in_map_iff in Hq. destruct Hq as [y [<- Hy]]. apply Htied. exact Hy.
+      * intros [Hq [Haff Hr]]. apply (Hmin q rho Hq Haff Hr). reflexivity.
+    + apply name_sort_sorted. exact Hnd.
+    + rewrite <- pick_ids, Hpo. reflexivity.
 Qed.
 
 (* ---------- a whole run ---------- *)
